@@ -246,6 +246,20 @@ def scalar_states(fn):
     return any(t in FUNDAMENTAL for t in ts)
 
 
+def is_rule_class(db, fn):
+    """is the function the match of a rule (a class with rule_t / subs_t), as opposed to a control (normal< Rule >::match enters through the free function by design)"""
+    cls = (fn.get('cls') or {}).get('s')
+    seen = set(); todo = [cls]
+    while todo:
+        c = todo.pop(0)
+        if not c or c in seen: continue
+        seen.add(c)
+        r = db.records.get(c) or {}
+        if 'subs_t' in r.get('aliases', {}) or 'rule_t' in r.get('aliases', {}): return True
+        todo.extend(r.get('bases', []))
+    return False
+
+
 def new_control_has_own_match(db, ctl, callee_class):
     rule = _control_rule1(callee_class, None)
     r = db.records.get('%s<%s>' % (ctl, rule)) if rule else None
@@ -284,6 +298,10 @@ def check_fn(db, fn, never_false=frozenset()):
                 # declares it, so this is only decidable when the new control declares a match of its own (one that merely inherits normal< Rule >::match
                 # is the same function whichever way it is named)
                 probs.append(('F-entry', 'the control is switched to %s but the sub-rule is entered through %s< Rule >::match, the match of the old control: a match() customised by the new control is skipped for the attached rule, one customised by the old control still runs for it' % (tm2[-1], own['tmpl'][-1])))
+            if entry == 'free' and tn not in ACTION_CLASSES and is_rule_class(db, fn):
+                # a rule hands its sub-rules to Control< Rule >::match, which is where an Action< Rule >::match (change_state, change_action, disable_action ...)
+                # and a control's own match are consulted; the free match<>() skips both
+                probs.append(('F-entry', 'sub-rule %s is attempted through the free function match<>() instead of Control< Rule >::match: a switch attached to it (an action class with a match of its own, a control with its own match) is silently skipped' % short(rule2)))
             exp = expected_frame(fn, own, i, c, nstates)
             if A2 is not None and exp['A'] is not None and A2 != exp['A']:
                 if not (tn == I + 'if_apply' and A2 == 1 and own['A'] == 1):
